@@ -308,7 +308,11 @@ func runPoolOps(cfg poolCfg, ops []poolOp) (tr poolTrace) {
 			h, err := pool.Acquire(actx)
 			cancel()
 			if err != nil {
-				ev("acquire %d -> blocked", op.W)
+				if strings.Contains(err.Error(), "dial refused") {
+					ev("acquire %d -> dial-failed", op.W)
+				} else {
+					ev("acquire %d -> blocked", op.W)
+				}
 				continue
 			}
 			handles[op.W] = h
@@ -480,6 +484,11 @@ func runPoolOps(cfg poolCfg, ops []poolOp) (tr poolTrace) {
 			}
 			srv.mu.Unlock()
 			ev("stress %d x %d done, dialed=%d", op.W, op.Ms, len(srv.conns))
+		case "dial-fail":
+			srv.mu.Lock()
+			srv.dialFail = op.Ms == 1
+			srv.mu.Unlock()
+			ev("dial-fail %d", op.Ms)
 		case "sleep":
 			time.Sleep(time.Duration(op.Ms) * time.Millisecond)
 			st := pool.Stat()
@@ -529,6 +538,9 @@ func genPoolOps(r *Rng, cfg poolCfg, n int, timing bool) []poolOp {
 		case 10:
 			ops = append(ops, poolOp{Op: "finish-slow"})
 		case 11:
+			if !timing && r.Chance(60) {
+				ops = append(ops, poolOp{Op: "dial-fail", Ms: r.Intn(2)})
+			}
 			if timing {
 				ops = append(ops, poolOp{Op: "sleep", Ms: []int{30, 90, 160}[r.Intn(3)]})
 			}
@@ -570,6 +582,9 @@ func correspondC11(c *Ctx, cfg poolCfg, ops []poolOp, tr poolTrace) {
 		case f[0] == "acquire" && len(f) >= 4 && f[3] == "blocked":
 			toks = append(toks, "a"+f[1]+":b")
 			want = append(want, "blocked")
+		case f[0] == "acquire" && len(f) >= 4 && f[3] == "dial-failed":
+			toks = append(toks, "a"+f[1]+":x")
+			want = append(want, "dial-failed")
 		case f[0] == "acquire":
 			return // unidentified connection: reported by the oracle
 		case (f[0] == "release" || f[0] == "release-again") && len(f) >= 4:
